@@ -14,27 +14,31 @@ from vlib import core
 P = 'C08'
 
 
+LIGHT = ['-DC08_LIGHT=1']   # slower builds (-O0, ASan) explore a smaller instance of the same space
+
+
 def chacha_matrix(tier):
     """(name, cc, opt, extra flags, sanitizer)"""
     if tier == 'quick':   # covering subset: both compilers, every -O level, both aliasing settings, ASan on/off
         return [('gcc-O2', 'gcc', '-O2', [], None),
                 ('clang-O3-fno-strict-aliasing', 'clang', '-O3', ['-fno-strict-aliasing'], None),
-                ('gcc-O0-fno-strict-aliasing', 'gcc', '-O0', ['-fno-strict-aliasing'], None),
-                ('clang-O1-asan', 'clang', '-O1', [], 'asan')]
+                ('gcc-O0-fno-strict-aliasing', 'gcc', '-O0', ['-fno-strict-aliasing'] + LIGHT, None),
+                ('clang-O1-asan', 'clang', '-O1', LIGHT, 'asan')]
     m = []
     for cc in ('gcc', 'clang'):
         for opt in ('-O0', '-O1', '-O2', '-O3'):
             for al in ([], ['-fno-strict-aliasing']):
-                m.append(('%s%s%s' % (cc, opt, '-fno-strict-aliasing' if al else ''), cc, opt, al, None))
-    m.append(('gcc-O1-asan', 'gcc', '-O1', [], 'asan'))
-    m.append(('clang-O2-fno-strict-aliasing-asan', 'clang', '-O2', ['-fno-strict-aliasing'], 'asan'))
+                m.append(('%s%s%s' % (cc, opt, '-fno-strict-aliasing' if al else ''), cc, opt,
+                          al + (LIGHT if opt == '-O0' else []), None))
+    m.append(('gcc-O1-asan', 'gcc', '-O1', LIGHT, 'asan'))
+    m.append(('clang-O2-fno-strict-aliasing-asan', 'clang', '-O2', ['-fno-strict-aliasing'] + LIGHT, 'asan'))
     return m
 
 
 def gost_matrix(tier):
     """(name, cc, opt, extra flags, sanitizer).  The *-fast builds carry the full 2^32 sweep in the thorough tier."""
-    return [('expanded-gcc-O1-asan', 'gcc', '-O1', [], 'asan'),
-            ('small-clang-O1-asan', 'clang', '-O1', ['-DGOST28147_USE_SMALL_TABLES=1'], 'asan'),
+    return [('expanded-gcc-O1-asan', 'gcc', '-O1', LIGHT, 'asan'),
+            ('small-clang-O1-asan', 'clang', '-O1', ['-DGOST28147_USE_SMALL_TABLES=1'] + LIGHT, 'asan'),
             ('expanded-clang-O2-fast', 'clang', '-O2', ['-DC08_SWEEP_FULL=1'], None),
             ('small-gcc-O2-fast', 'gcc', '-O2', ['-DGOST28147_USE_SMALL_TABLES=1', '-DC08_SWEEP_FULL=1'], None)]
 
